@@ -714,8 +714,10 @@ def _force_mask(m):
 
 
 def _is_boolish_obj(k):
-    if not isinstance(k, np.ndarray) or k.dtype != object or k.size == 0:
+    if not isinstance(k, np.ndarray) or k.dtype != object:
         return False
+    if k.size == 0:
+        return True
     return all(isinstance(e, (SB, bool, np.bool_)) for e in k.flat)
 
 
@@ -906,8 +908,23 @@ def abstract(t):
         kind = t.decl().kind()
         if kind == z3.Z3_OP_MUL:
             nums = [c for c in ch if _is_znum(c)]
-            rest = sorted([c for c in ch if not _is_znum(c)], key=lambda c: c.get_id())
-            if len(rest) <= 1:
+            rest = [c for c in ch if not _is_znum(c)]
+            if len(rest) > 1:
+                # a factor like (o + a) - (o + b) is a constant in disguise: look before giving up linearity
+                rest2 = []
+                for c in rest:
+                    cs = z3.simplify(c)
+                    (nums if _is_znum(cs) else rest2).append(cs if _is_znum(cs) else c)
+                rest = rest2
+            rest = sorted(rest, key=lambda c: c.get_id())
+            if len(rest) == 0:
+                r = z3.simplify(z3.Product(*nums)) if len(nums) > 1 else nums[0]
+            elif len(rest) == 1 and len(nums) + 1 != len(ch):
+                acc = rest[0]
+                for c in nums:
+                    acc = c * acc
+                r = acc
+            elif len(rest) <= 1:
                 r = t.decl()(*ch) if len(ch) == t.num_args() else t
             else:
                 acc = rest[0]
@@ -917,6 +934,10 @@ def abstract(t):
                     acc = c * acc
                 r = acc
         elif kind == z3.Z3_OP_DIV:
+            if not _is_znum(ch[1]):
+                c1 = z3.simplify(ch[1])
+                if _is_znum(c1):
+                    ch[1] = c1
             r = (ch[0] / ch[1]) if _is_znum(ch[1]) else _DIVF(ch[0], ch[1])
         elif kind == z3.Z3_OP_POWER:
             r = _POWF(ch[0], ch[1])
